@@ -47,6 +47,17 @@ PRELUDE = r"""
 typedef struct rxv_vector { void* data; size_t size; } rxv_vector;
 typedef struct rxv_string { const char* data; size_t size; unsigned long long id; /* abstract identity of the byte string: equal ids <=> equal strings */ } rxv_string;
 #define rxv_string_eq(a, b) ((a)->id == (b)->id)
+/* TRUSTED abstraction of the C++ standard string (suites using it say so): the identity of a byte string is an uninterpreted function of
+   where it was taken from and its length.  assign(p, n) takes the identity of the n bytes at p.  compare(pos, len, p, n) is
+   exact when it compares the whole stored string (pos == 0, len >= size): 0 iff same identity; when it looks at a proper
+   part of the stored string its result is unknown (any value) - a caller that relies on it for equality is then refuted. */
+unsigned long long __CPROVER_uninterpreted_rxv_key_id(const char*, size_t);
+int rxv_nondet_int(void);
+static inline void rxv_string_assign(rxv_string* s, const char* p, size_t n) { s->data = p; s->size = n; s->id = __CPROVER_uninterpreted_rxv_key_id(p, n); }
+static inline int rxv_string_compare(const rxv_string* s, size_t pos, size_t len, const char* p, size_t n) {
+	if (pos == 0 && len >= s->size) return s->id == __CPROVER_uninterpreted_rxv_key_id(p, n) ? 0 : 1;
+	return rxv_nondet_int();
+}
 #define RXV_SWAP(a, b) do { __typeof__(a) rxv_tmp_ = (a); (a) = (b); (b) = rxv_tmp_; } while (0)
 #define RXV_MAX(a, b) ((a) > (b) ? (a) : (b))
 #define RXV_MIN(a, b) ((a) < (b) ? (a) : (b))
@@ -572,6 +583,12 @@ class Translator:
         t = re.sub(r"\balignas\s*\((\w+)\)", r"__attribute__((aligned(\1)))", t)
         t = t.replace("nullptr", "NULL")
         t = re.sub(r"\brandomx::", "", t)
+        if re.search(r"\bthread_local\b", t):
+            # per-thread storage stays per-thread storage (C spelling); harnesses that reason about frames across threads treat
+            # __thread objects as owned by the calling thread
+            t = re.sub(r"\bthread_local\b", "__thread", t)
+            t = re.sub(r"\b__thread\s+static\b", "static __thread", t)
+            self.fire("thread_local -> __thread")
         return t
 
     def var_fix(self, t):
@@ -1017,6 +1034,10 @@ class Translator:
                 continue
             b, k = re.subn(rw["pattern"], rw["repl"], b)
             self.fire("recipe rewrite: " + rw["name"], k)
+        if re.search(r"\bthread_local\b", b):
+            b = re.sub(r"\bthread_local\b", "__thread", b)
+            b = re.sub(r"\b__thread\s+static\b", "static __thread", b)
+            self.fire("thread_local -> __thread")
         b = self.expr_fix(b)
         n0 = len(re.findall(r"\b(?:static|reinterpret|const)_cast\b", f.body))
         self.fire("cast", n0)
@@ -1194,6 +1215,8 @@ class Translator:
                 break
             name = mo.group(2)
             owner = self.virtual.get(name) or self.method_owner.get(name)
+            if name in self.spec.get("not_methods", ()):      # function-pointer data members called through the object
+                owner = None
             if owner is None or owner not in self.classes or name not in self.all_methods(owner):
                 pos = mo.end()
                 continue
